@@ -92,6 +92,7 @@ impl Property for C13 {
         v.push(("enc:postcard".into(), m * 5));
         v.push(("boundaries>=2".into(), m * 5));
         v.push(("preprocess-batch".into(), tier.pick(10, 100)));
+        v.push(("t=n".into(), m));
         v
     }
     fn check(&self, suite: SuiteId, case: &Case, ctx: &mut Ctx) -> CheckResult {
@@ -240,10 +241,20 @@ fn compare(ctx: &mut Ctx, base: &Outputs, got: &Outputs, desc: &str) -> CheckRes
     Ok(())
 }
 
+/// t = n is allowed everywhere except in the repair protocol (which needs a helper set next to the repaired participant)
+fn shape_for(case: &Case) -> Shape {
+    let n = case.shape.n.max(if case.protocol % 5 == 4 { 3 } else { 2 });
+    let tmax = if case.protocol % 5 == 4 { n - 1 } else { n };
+    Shape { n, t: case.shape.t.clamp(2, tmax) }
+}
+
 fn check<C: Suite>(case: &Case, ctx: &mut Ctx) -> CheckResult {
-    let shape = Shape { n: case.shape.n.max(3), t: case.shape.t.clamp(2, case.shape.n.max(3) - 1) };
     let proto = (case.protocol % 5) as usize;
+    let shape = shape_for(case);
     ctx.label(&format!("protocol:{}", PROTOCOLS[proto]));
+    if shape.t == shape.n {
+        ctx.label("t=n");
+    }
     let nb = [4usize, 4, 3, 3, 5][proto];
     let mut base: Option<Outputs> = None;
     for json in [false, true] {
@@ -290,7 +301,7 @@ fn check<C: Suite>(case: &Case, ctx: &mut Ctx) -> CheckResult {
 /// one execution of a case with the given boundary mask (no ctx; used by the restart stage)
 pub fn run_one(suite: SuiteId, case: &Case, mask: u32, json: bool) -> Result<Vec<(String, Vec<u8>)>, Failure> {
     fn go<C: Suite>(case: &Case, mask: u32, json: bool) -> Result<Vec<(String, Vec<u8>)>, Failure> {
-        let shape = Shape { n: case.shape.n.max(3), t: case.shape.t.clamp(2, case.shape.n.max(3) - 1) };
+        let shape = shape_for(case);
         let on = |b: usize| mask >> b & 1 == 1;
         let known = Known::default();
         let mut py = crate::pyref::PySlot::default();
